@@ -1,8 +1,10 @@
 package props
 
 import (
+	"encoding/json"
 	"fmt"
 	"math"
+	"math/big"
 	"strings"
 
 	"github.com/theory/sqljson/path"
@@ -326,6 +328,10 @@ func checkLastScope(c *h.Ctx, clause string) {
 	}
 }
 
+func truncRat(r *big.Rat) *big.Int {
+	return new(big.Int).Quo(r.Num(), r.Denom()) // Quo truncates toward zero
+}
+
 func replayC14(c *h.Ctx, cs h.Case) {
 	p, err, pan := h.ParseSafe(cs.Path)
 	if err != nil || pan != "" {
@@ -542,6 +548,84 @@ func runC14(c *h.Ctx) {
 			c.Violate("subscript.current", h.F("mode", modeName(lax)), fmt.Sprintf("Query(%s) on %s = %s; selecting by position trunc(@.i) of each row's own array gives [%s]", ptxt, docText, o.Summary(), strings.Join(want, " | ")), h.Case{Kind: "nested", Path: ptxt, Doc: docText})
 		} else {
 			c.Held("subscript.current")
+		}
+	}
+	// subscripts that arrive as json.Number (a variable, a UseNumber document)
+	// in every numeral spelling: fraction, exponent, both
+	{
+		els := make([]string, 30)
+		for i := range els {
+			els[i] = fmt.Sprint(100 + i)
+		}
+		arrText := "[" + strings.Join(els, ",") + "]"
+		spell := []string{"3", "3.0", "0.3e1", "30e-1", "2.5e1", "25.0e-1", "2.5", "-0.5e1", "-5", "1e1", "1E1", "99.5e-1", "0.0e0", "0e5", "29.99", "2.999e1", "3.0e1", "1.5e10", "1e10", "-2.5e9", "2147483647.5e0", "0.29e2", "29e0", "-0.9", "-0.09e1", "0.000001e6", "123e-2"}
+		for si, a := range spell {
+			for sj, b := range []string{"", "0.5e1", "2.9e1", "3e1", "7"} {
+				if !c.Mine(si*7 + sj) {
+					continue
+				}
+				for _, lax := range []bool{true, false} {
+					for _, via := range []string{"var", "doc"} {
+						ptxt, vars := "$[$i]", map[string]any{"i": json.Number(a)}
+						var doc any = h.Decode(arrText, true)
+						if b != "" {
+							ptxt = "$[$i to $j]"
+							vars["j"] = json.Number(b)
+						}
+						if via == "doc" {
+							ptxt = strings.NewReplacer("$i", "$.i", "$j", "$.j", "$[", "$.a[").Replace(ptxt)
+							d := map[string]any{"a": doc, "i": json.Number(a)}
+							if b != "" {
+								d["j"] = json.Number(b)
+							}
+							doc, vars = d, nil
+						}
+						if !lax {
+							ptxt = "strict " + ptxt
+						}
+						p := cachedPath(ptxt)
+						if p == nil {
+							c.Count("gen.unparsable", 1)
+							continue
+						}
+						o := h.Call("query", p, doc, h.Opts{Vars: vars})
+						c.Eval(1)
+						c.Distinct("numsub", ptxt, a, b)
+						ra, _ := new(big.Rat).SetString(a)
+						from := truncRat(ra)
+						to := from
+						if b != "" {
+							rb, _ := new(big.Rat).SetString(b)
+							to = truncRat(rb)
+						}
+						wantErr := from.Cmp(big.NewInt(math.MaxInt32)) > 0 || from.Cmp(big.NewInt(math.MinInt32)) < 0 || to.Cmp(big.NewInt(math.MaxInt32)) > 0 || to.Cmp(big.NewInt(math.MinInt32)) < 0
+						var want []string
+						if !wantErr {
+							f, t := from.Int64(), to.Int64()
+							if !lax && (f < 0 || f > t || t >= 30) {
+								wantErr = true
+							} else {
+								for k := max(f, 0); k <= min(t, 29); k++ {
+									want = append(want, "#"+els[k])
+								}
+							}
+						}
+						got := ""
+						if o.Class == h.OK {
+							gs := make([]string, len(o.Items))
+							for j, it := range o.Items {
+								gs[j] = canonJSON(it)
+							}
+							got = strings.Join(gs, " | ")
+						}
+						if (wantErr && o.Class != h.Soft) || (!wantErr && (o.Class != h.OK || got != strings.Join(want, " | "))) {
+							c.Violate("single", h.F("form", "json.Number-subscript", "mode", modeName(lax), "via", via), fmt.Sprintf("Query(%s) with i = %s, j = %s on an array of 30 = %s; positions trunc(i)..trunc(j) = %s..%s (error: %v)", ptxt, a, b, o.Summary(), from, to, wantErr), h.Case{Kind: "numsub", Path: ptxt, Extra: map[string]string{"i": a, "j": b}})
+						} else {
+							c.Held("single")
+						}
+					}
+				}
+			}
 		}
 	}
 	// last after a nested subscript: in $.a[$.b[i] ? (@ <= last)] the filter
